@@ -10,9 +10,11 @@
     DiskObjectStore._update_pack_cache     -> `rescan`   (a `.pack` with a matching `.idx` is a pack; new ones are
                                                          appended to the cache, vanished ones dropped)
     PackBasedObjectStore.get_raw / __contains__ -> `step`: packs, then the loose file, then alternates
-        (no second look at the packs after a loose miss unless `Cfg.reprobe`, which models the proposed fix)
-    PackBasedObjectStore.__iter__          -> `istep`    (rescan; each cached pack, a vanished one is evicted and
-                                                         SKIPPED without rescanning; loose; alternates)
+        (`Cfg.reprobe`: after the loose file and the alternates have missed, `_lookup_in_packs` runs once more — the
+         repaired code; `reprobe = false` is the code before the C10 fix series)
+    PackBasedObjectStore.__iter__          -> `istep`    (rescan; each cached pack, a vanished one is evicted and skipped;
+                                                         loose; `rescanAfter`: rescan again and list the packs that
+                                                         appeared since (repaired code); alternates)
     Pack.index / Pack.data (lazy open, FileNotFoundError => PackFileDisappeared) -> the `idx`/`data` probes
 
   One `step` is at most one system call of the real code (open of `<pack>.idx`, open of `<pack>.pack`,
@@ -81,7 +83,7 @@ structure Cfg where
   alts : List Id
   /-- `_MAX_PACK_RESCAN_ATTEMPTS` -/
   maxAttempts : Nat
-  /-- proposed fix: look at the packs once more after the loose + alternates miss -/
+  /-- look at the packs once more (`_lookup_in_packs` again) after the loose + alternates miss -/
   reprobe : Bool
 
 inductive Phase where
@@ -130,11 +132,15 @@ def withCache (r : RState) (cache' : List Name) : RState :=
            idxLoaded := r.idxLoaded.filter (fun q => cache'.contains q),
            dataLoaded := r.dataLoaded.filter (fun q => cache'.contains q) }
 
+/-- where `_lookup_in_packs` raising `KeyError` leads: the loose probe after the first look at the packs, `KeyError` to
+the caller after the second -/
+def afterPacks (r : RState) : Phase := if r.reprobed then .done false else .loose
+
 /-- `continue` in `for _attempt in range(N)`: another pass if one is left, else `raise KeyError` -/
 def nextAttempt (c : Cfg) (r : RState) : RState :=
   if r.attempt + 1 < c.maxAttempts then
     { r with attempt := r.attempt + 1, rescanned := true, disappeared := false, todo := r.cache }
-  else { r with attempt := r.attempt + 1, rescanned := true, phase := .loose }
+  else { r with attempt := r.attempt + 1, rescanned := true, phase := afterPacks r }
 
 def step (c : Cfg) (f : FS) (r : RState) : RState :=
   match r.phase with
@@ -152,9 +158,9 @@ def step (c : Cfg) (f : FS) (r : RState) : RState :=
     | [] =>
       if r.disappeared then nextAttempt c (withCache r (rescan f r.cache).1)
       else if !r.rescanned then
-        if (rescan f r.cache).2.isEmpty then { withCache r (rescan f r.cache).1 with phase := .loose }
+        if (rescan f r.cache).2.isEmpty then { withCache r (rescan f r.cache).1 with phase := afterPacks r }
         else nextAttempt c (withCache r (rescan f r.cache).1)
-      else { r with phase := .loose }
+      else { r with phase := afterPacks r }
   | .needData p =>
     if f.data.contains p then
       { r with dataLoaded := p :: r.dataLoaded, phase := .done true }
@@ -164,9 +170,8 @@ def step (c : Cfg) (f : FS) (r : RState) : RState :=
   | .alts =>
     if c.alts.contains c.x then { r with phase := .done true }
     else if c.reprobe && !r.reprobed then
-      let r1 := withCache r (rescan f r.cache).1
-      { r1 with attempt := 0, rescanned := true, disappeared := false, todo := r1.cache,
-                phase := .scan, reprobed := true }
+      -- `_lookup_in_packs` once more, from scratch (its own rescan comes when the cached packs have missed)
+      { r with attempt := 0, rescanned := false, disappeared := false, todo := r.cache, phase := .scan, reprobed := true }
     else { r with phase := .done false }
 
 /-- the reader takes one step in each of the given file-system states (whatever the other actors did in between) -/
@@ -203,23 +208,24 @@ def Sys.exec : Sys → List (Option Nat) → Sys
 
 /-! ### the shape of a safe repacking program (checked on the recorded programs) -/
 
-/-- `checkProgram pstar haveData haveIdx prog`: no pack file is removed before both files of `pstar` have been
-installed by the program, and `pstar`'s files are never removed afterwards. -/
-def checkProgram (pstar : Name) : Bool → Bool → List Act → Bool
+/-- `checkProgram pstar prot haveData haveIdx prog`: no pack file is removed, and no loose object of `prot` is deleted,
+before both files of `pstar` have been installed by the program (or were there from the start: `haveData`, `haveIdx`),
+and `pstar`'s files are never removed afterwards. -/
+def checkProgram (pstar : Name) (prot : List Id) : Bool → Bool → List Act → Bool
   | _, _, [] => true
   | hd, hi, a :: rest =>
     match a with
-    | .installData p => checkProgram pstar (hd || p == pstar) hi rest
-    | .installIdx p => checkProgram pstar hd (hi || p == pstar) rest
-    | .removeData p => (hd && hi && p != pstar) && checkProgram pstar hd hi rest
-    | .removeIdx p => (hd && hi && p != pstar) && checkProgram pstar hd hi rest
-    | .addLoose _ => checkProgram pstar hd hi rest
-    | .delLoose _ => checkProgram pstar hd hi rest
+    | .installData p => checkProgram pstar prot (hd || p == pstar) hi rest
+    | .installIdx p => checkProgram pstar prot hd (hi || p == pstar) rest
+    | .removeData p => (hd && hi && p != pstar) && checkProgram pstar prot hd hi rest
+    | .removeIdx p => (hd && hi && p != pstar) && checkProgram pstar prot hd hi rest
+    | .addLoose _ => checkProgram pstar prot hd hi rest
+    | .delLoose x => ((hd && hi) || !prot.contains x) && checkProgram pstar prot hd hi rest
 
 /-! ### iteration (`__iter__`) -/
 
 inductive IPhase where
-  | rescan | packs | loose | alts | done
+  | rescan | packs | loose | rescan2 | packs2 | alts | done
   deriving DecidableEq, Repr
 
 structure IState where
@@ -233,7 +239,16 @@ structure IState where
 def IState.init (cache idxLoaded : List Name) : IState :=
   { cache, idxLoaded, todo := [], acc := [], phase := .rescan }
 
-def istep (ids : Name → List Id) (alts : List Id) (f : FS) (r : IState) : IState :=
+/-- list one pack (`yield from pack`): open its index if need be; a vanished pack is evicted and skipped -/
+def iprobe (ids : Name → List Id) (f : FS) (r : IState) (p : Name) (rest : List Name) : IState :=
+  if r.idxLoaded.contains p || f.idx.contains p then
+    { r with idxLoaded := if r.idxLoaded.contains p then r.idxLoaded else p :: r.idxLoaded,
+             acc := r.acc ++ ids p, todo := rest }
+  else { r with cache := r.cache.filter (fun q => q != p),
+                idxLoaded := r.idxLoaded.filter (fun q => q != p), todo := rest }
+
+/-- `rescanAfter`: the repaired `__iter__` (after the loose listing, rescan and list the packs that appeared since) -/
+def istep (rescanAfter : Bool) (ids : Name → List Id) (alts : List Id) (f : FS) (r : IState) : IState :=
   match r.phase with
   | .rescan =>
     let cache' := (rescan f r.cache).1
@@ -241,20 +256,33 @@ def istep (ids : Name → List Id) (alts : List Id) (f : FS) (r : IState) : ISta
              todo := cache', phase := .packs }
   | .packs =>
     match r.todo with
-    | p :: rest =>
-      if r.idxLoaded.contains p || f.idx.contains p then
-        { r with idxLoaded := if r.idxLoaded.contains p then r.idxLoaded else p :: r.idxLoaded,
-                 acc := r.acc ++ ids p, todo := rest }
-      else { r with cache := r.cache.filter (fun q => q != p),
-                    idxLoaded := r.idxLoaded.filter (fun q => q != p), todo := rest }
+    | p :: rest => iprobe ids f r p rest
     | [] => { r with phase := .loose }
-  | .loose => { r with acc := r.acc ++ f.loose, phase := .alts }
+  | .loose => { r with acc := r.acc ++ f.loose, phase := if rescanAfter then .rescan2 else .alts }
+  | .rescan2 =>
+    let cache' := (rescan f r.cache).1
+    { r with cache := cache', idxLoaded := r.idxLoaded.filter (fun q => cache'.contains q),
+             todo := (rescan f r.cache).2, phase := .packs2 }
+  | .packs2 =>
+    match r.todo with
+    | p :: rest => iprobe ids f r p rest
+    | [] => { r with phase := .alts }
   | .alts => { r with acc := r.acc ++ alts, phase := .done }
   | .done => r
 
-def irun (ids : Name → List Id) (alts : List Id) : List FS → IState → IState
+def irun (rescanAfter : Bool) (ids : Name → List Id) (alts : List Id) : List FS → IState → IState
   | [], r => r
-  | f :: fs, r => irun ids alts fs (istep ids alts f r)
+  | f :: fs, r => irun rescanAfter ids alts fs (istep rescanAfter ids alts f r)
+
+/-- a repacker interleaved with one iteration: `true` = the repacker's next action, `false` = the iterator's next step -/
+def iexec (rescanAfter : Bool) (ids : Name → List Id) (alts : List Id) :
+    FS → List Act → IState → List Bool → FS × List Act × IState
+  | f, prog, r, [] => (f, prog, r)
+  | f, prog, r, true :: ds =>
+    match prog with
+    | [] => iexec rescanAfter ids alts f [] r ds
+    | a :: rest => iexec rescanAfter ids alts (f.act a) rest r ds
+  | f, prog, r, false :: ds => iexec rescanAfter ids alts f prog (istep rescanAfter ids alts f r) ds
 
 /-! ### replay support for the driver: which system call does the next step make? -/
 
@@ -263,7 +291,7 @@ inductive Sys.Call where
   deriving DecidableEq, Repr
 
 /-- `none` = the next step needs no system call (or the lookup is finished) -/
-def nextCall (c : Cfg) (r : RState) : Option Sys.Call :=
+def nextCall (_c : Cfg) (r : RState) : Option Sys.Call :=
   match r.phase with
   | .done _ => none
   | .scan => match r.todo with
@@ -271,12 +299,16 @@ def nextCall (c : Cfg) (r : RState) : Option Sys.Call :=
     | [] => if r.disappeared || !r.rescanned then some .listdir else none
   | .needData p => some (.data p)
   | .loose => some .loose
-  | .alts => if !c.alts.contains c.x && c.reprobe && !r.reprobed then some .listdir else none
+  | .alts => none
 
 def inextCall (r : IState) : Option Sys.Call :=
   match r.phase with
   | .rescan => some .listdir
+  | .rescan2 => some .listdir
   | .packs => match r.todo with
+    | p :: _ => if r.idxLoaded.contains p then none else some (.idx p)
+    | [] => none
+  | .packs2 => match r.todo with
     | p :: _ => if r.idxLoaded.contains p then none else some (.idx p)
     | [] => none
   | .loose => some .loose
